@@ -57,8 +57,10 @@ def C15(tier, seed):
 def C14(tier, seed):
     req = ["C14.make_outcome", "C14.wellformed", "C14.predicates", "C14.low_high", "C14.left_right", "C14.as_ref",
            "C14.projection", "C14.tuple", "C14.optpair", "C14.roundtrip", "C14.width", "C14.eq", "C14.hash"]
+    st = iv_chain(tier, req + ["C07.range_bounds"])
+    st.adopt = {"C07.range_bounds", "C07.range_contains", "C07.range_contains_consistent"}     # Interval -> RangeBounds is a conversion too
     return {
-        "stages": [iv_chain(tier, req)],
+        "stages": [st],
         "exhaustive": True,
         "rule": "every pair of raw bounds (ordered, equal, inverted) through 8 construction paths (4 presence "
                 "combinations for the option pair), every accessor / conversion of every interval, equality and hash "
@@ -74,11 +76,14 @@ def C13(tier, seed):
                    required=["C13.scalar_wellformed", "C13.scalar_kind", "C13.scalar_sound", "C13.scalar_tight",
                              "C13.binary_panic", "C13.binary_wellformed", "C13.binary_kind", "C13.binary_sound",
                              "C13.binary_tight"])
+    st_rel3 = Stage("rel3", ("Gen_Interval", "Gen_Interval.cfg"), ("Trace_Interval", "Trace_Interval.cfg"),
+                    env={"FAMILY": "rel3"},
+                    required=["C13.relative_panic", "C13.relative_kind", "C13.relative_correctly_rounded"])
     st_rel = Stage("rel", ("Gen_Interval", "Gen_Interval.cfg"), ("Trace_Interval", "Trace_Interval.cfg"),
                    env={"FAMILY": "rel"},
                    required=["C13.relative_panic", "C13.relative_wellformed", "C13.relative_sound", "C13.relative_tight"])
     return {
-        "stages": [st_box, st_rel],
+        "stages": [st_box, st_rel, st_rel3],
         "exhaustive": True,
         "rule": "every interval of the three kinds over the integer box -BOX..BOX (BOX=4 quick, 6 thorough) x every scalar "
                 "of the box x {+,-,*,/,neg} (i32 truncating division; f64 exact division by +-1,2,4), every ordered pair "
@@ -107,7 +112,7 @@ def C18(tier, seed):
 
 
 def C19(tier, seed):
-    st_disp = iv_chain(tier, ["C19.display"])
+    st_disp = iv_chain(tier, ["C19.display", "C19.display_long_elements"])
     st_apx = Stage("approx", ("Gen_Approx", "Gen_Approx.cfg"), ("Trace_Interval", "Trace_Interval.cfg"),
                    env={"FAMILY": "chain"},
                    required=["C19.kind_aware", "C19.boundwise", "C19.symmetric", "C19.ne_is_negation", "C19.reflexive",
@@ -221,7 +226,7 @@ def C20(tier, seed):
     values = Stage("values", ("Gen_Build", "Gen_Build.cfg"), ("Trace_Build", "Trace_Build.cfg"),
                    env={"BUILD_MODE": "values"}, harness_bin=HARNESS_SERDE,
                    required=["C20.value.confidence", "C20.value.interval.f64", "C20.value.interval.i32",
-                             "C20.value.interval.String"])
+                             "C20.value.interval.String", "C20.value.state.prop", "C20.value.state.unpaired", "C20.value.count_beyond_32_bits"])
     L = 2 if tier == "quick" else 3
     stages = [builds, values]
     for fl in ("arith", "geo", "harm", "paired", "unpaired", "prop"):
@@ -349,7 +354,7 @@ def C03(tier, seed):
                      env=e, required=req, shards=shards)
     q = tier == "quick"
     ranks = st("ranks", ["C03.no_panic", "C03.domain", "C03.kind", "C03.in_range", "C03.ranks", "C03.brackets",
-                         "C03.entry_points_agree", "C03.product_observed", "C03.index", "C03.rounding_boundary",
+                         "C03.entry_points_agree", "C03.population_beyond_32_bits", "C03.product_observed", "C03.index", "C03.rounding_boundary",
                          "C03.rejects.TooFewSamples", "C03.rejects.InvalidQuantile", "C03.rejects.TooFewSuccesses",
                          "C03.rejects.TooFewFailures", "C03.kind.two", "C03.kind.upper", "C03.kind.lower"],
                {"Q_N": 70 if q else 400})
@@ -377,8 +382,13 @@ def C12(tier, seed):
                      env={"PART": part}, required=req, shards=6)
     prop = st("prop", ["C12.prop_row", "C12.prop_pointwise", "C12.prop_mean"])
     prop.mc = [("MC_Binomial", "MC_Binomial.cfg", {}, 1), ("MC_BigNum", "MC_BigNum.cfg", {}, 1)]
+    # the coverage statement is about the VALUES returned: they must be the order statistics at the ranks whose coverage is summed
+    vals = Stage("shuffle", ("Gen_Quantile", "Gen_Quantile.cfg"), ("Trace_Quantile", "Trace_Quantile.cfg"),
+                 env={"PART": "shuffle", "Q_SHUFFLES": 40 if tier == "quick" else 400}, shards=4,
+                 required=["C03.data_outcome", "C03.data_elements", "C03.distinct_values_shuffled"])
+    vals.adopt = {"C03.data_outcome", "C03.data_elements", "C03.no_panic"}
     return {
-        "stages": [prop, st("quant", ["C12.quant_pointwise", "C12.quant_mean"])],
+        "stages": [prop, st("quant", ["C12.quant_pointwise", "C12.quant_mean", "C12.quant_extreme_floor"]), vals],
         "exhaustive": True,
         "rule": "n in {20,30,50,100,200} (+400,1000,2000 thorough) x levels {0.8,0.9,0.95,0.99} x 3 kinds: the interval of EVERY k (resp. the "
                 "rank interval of every q = a/200) is recorded; for every grid point p = a/200 with n p, n(1-p) >= 10 the exact binomial coverage "
